@@ -1,6 +1,6 @@
 #!/bin/sh
 # runs every registered check (quick tier by default) on the current tree; prints one line per property
-cd /verif
+cd "$(dirname "$0")/.."
 tier=${1:-quick}
 for id in $(python3 -c "
 import sys; sys.path.insert(0,'lib')
